@@ -7,6 +7,7 @@
 
 #![allow(dead_code)]
 
+mod blueprint;
 mod budget;
 mod build;
 mod common;
@@ -28,9 +29,10 @@ static BUILD: build::BuildEngine = build::BuildEngine;
 static SCHED: sched::SchedEngine = sched::SchedEngine;
 static PROPT: proptest::PropEngine = proptest::PropEngine;
 static STORAGE: storage::StorageEngine = storage::StorageEngine;
+static BLUEPRINT: blueprint::BlueprintEngine = blueprint::BlueprintEngine;
 
 fn engines() -> Vec<&'static dyn Engine> {
-    vec![&BUDGET, &BUILD, &SCHED, &PROPT, &STORAGE]
+    vec![&BUDGET, &BUILD, &SCHED, &PROPT, &STORAGE, &BLUEPRINT]
 }
 
 fn find_engine(name: &str) -> Option<&'static dyn Engine> {
